@@ -549,6 +549,7 @@ func (x *Exec) Run(lines []string) {
 			for _, d := range watchDenoms {
 				supBefore = append(supBefore, x.C.App.BankKeeper.GetSupply(x.C.Ctx(), d).Amount)
 			}
+			balBefore := x.allBalances()
 			halted := func() (h bool) {
 				defer func() {
 					if e := recover(); e != nil {
@@ -566,7 +567,28 @@ func (x *Exec) Run(lines []string) {
 			}
 			bl := "B " + coinsTok(sp)
 			for i, d := range watchDenoms {
-				bl += " " + x.C.App.BankKeeper.GetSupply(x.C.Ctx(), d).Amount.Sub(supBefore[i]).String()
+				delta := x.C.App.BankKeeper.GetSupply(x.C.Ctx(), d).Amount.Sub(supBefore[i])
+				bl += " " + delta.String()
+				// C07 on the implementation alone: the end of the block removes from the supply of each denomination exactly
+				// what was spendable at the burn address (nothing else in this application changes the supply at EndBlock)
+				if !delta.Neg().Equal(sp.AmountOf(d)) {
+					x.Flag("C07-supply-exact", fmt.Sprintf("%s%s was spendable at the burn address at the end of the block; the supply of %s changed by %s", sp.AmountOf(d), d, d, delta))
+				}
+			}
+			// ... and no other account's balance is changed by the end of the block
+			if balAfter := x.allBalances(); true {
+				for a, c := range balAfter {
+					if a != burntypes.BurnAddress && c != balBefore[a] {
+						x.Flag("C07-others", fmt.Sprintf("the end of the block changed the balance of %s from %q to %q", a, balBefore[a], c))
+						break
+					}
+				}
+				for a, c := range balBefore {
+					if _, ok := balAfter[a]; !ok && a != burntypes.BurnAddress {
+						x.Flag("C07-others", fmt.Sprintf("the end of the block changed the balance of %s from %q to nothing", a, c))
+						break
+					}
+				}
 			}
 			x.BurnSpendableBefore = sp
 			cres := x.C.App.Commit()
@@ -798,6 +820,16 @@ func (x *Exec) genesisEntry(f []string) {
 	}
 }
 
+// allBalances: every balance the bank module holds, by address
+func (x *Exec) allBalances() map[string]string {
+	out := map[string]string{}
+	x.C.App.BankKeeper.IterateAllBalances(x.C.Ctx(), func(a sdk.AccAddress, c sdk.Coin) bool {
+		out[a.String()] += c.String() + ","
+		return false
+	})
+	return out
+}
+
 func (x *Exec) genesisDid(f []string) (answer string) {
 	defer func() {
 		if e := recover(); e != nil {
@@ -811,13 +843,19 @@ func (x *Exec) genesisDid(f []string) (answer string) {
 	}
 	e := didtypes.NewDIDDocumentWithSeq(doc, seq)
 	one := didtypes.GenesisState{Documents: map[string]*didtypes.DIDDocumentWithSeq{s(f[1]): &e}}
-	if err := one.Validate(); err != nil {
+	// the entry as it stands in a genesis file: through the JSON codec and back (texts are coerced to UTF-8 on the way)
+	cdc := app.MakeEncodingConfig().Codec
+	var file didtypes.GenesisState
+	cdc.MustUnmarshalJSON(cdc.MustMarshalJSON(&one), &file)
+	if err := file.Validate(); err != nil {
 		return "GD invalid"
 	}
 	if x.genDid == nil {
 		x.genDid = &didtypes.GenesisState{Documents: map[string]*didtypes.DIDDocumentWithSeq{}}
 	}
-	x.genDid.Documents[s(f[1])] = &e
+	for k, v := range file.Documents {
+		x.genDid.Documents[k] = v
+	}
 	return "GD ok"
 }
 
